@@ -29,9 +29,9 @@ def check_case(ctx, cs):
                                       "expected_kv": [fl(frv(U)) for U in exp["kv"]], "got_kv": [list(U) for U in obj._knot_vector]})
         return
     # the same history on the shape in a very small and in a very large unit (refinement commutes with uniform scaling)
-    for label, conj in (("tiny", 2.0 ** -40), ("huge", 2.0 ** 30)):
+    for label, conj in (("tiny", 2.0 ** -40), ("huge", 2.0 ** 30), ("tuples_and_ints", None)):
         try:
-            o2, _ = replay_history(sh0, hist, "operations", conj=conj)
+            o2, _ = replay_history(sh0, hist, "operations", conj=conj, alt_repr=(conj is None))
         except Exception as e:
             ctx.violate(site, tg + ["coordinates=" + label, "raises"], small, {"exception": repr(e)[:300]})
             continue
